@@ -86,6 +86,26 @@ Fixpoint nodup_keys (seen : list str) (ks : list str) (multi : list string) : bo
   | k :: r => (existsb (fun m => seqb k (B m)) multi || negb (existsb (seqb k) seen)) && nodup_keys (k :: seen) r multi
   end.
 
+Fixpoint is_infix (fuel : nat) (p s : str) : bool :=
+  match fuel with
+  | O => false
+  | S n => has_prefix p s || match s with [] => false | _ :: r => is_infix n p r end
+  end.
+
+Fixpoint times_ok (obs exp : list str) : bool :=
+  match obs, exp with
+  | [], [] => true
+  | o :: obs', e :: exp' => (negb (nonempty e) || seqb o e) && times_ok obs' exp'
+  | _, _ => false
+  end.
+
+Fixpoint notes_ok (obs exp : list str) : bool :=
+  match obs, exp with
+  | [], [] => true
+  | o :: obs', e :: exp' => is_infix (S (List.length o)) e o && notes_ok obs' exp'
+  | _, _ => false
+  end.
+
 Definition check_C02 (f : fmt) (code : list (str * str)) (doc : list (str * list (str * str))) (i : minfo)
            (obs : list (str * str)) : list c02_clause :=
   let fail (b : bool) (c : c02_clause) := if b then [] else [c] in
@@ -137,6 +157,10 @@ Definition check_C02 (f : fmt) (code : list (str * str)) (doc : list (str * list
       ++ (match one obs "Description" with
           | Some v => fail (seqb (first_line v) (synopsis i)) MSynopsis ++ fail (strs_eqb (deb_unfold v) (description_lines i)) MDescription
           | None => [MSynopsis] end)
+      (* custom fields, except the names ipk reserves for its own fields: present with the configured value iff non-empty *)
+      ++ flat_map (fun '(k, v) => if nonempty v then
+                     match map snd (filter (fun kv => seqb (fst kv) k) obs) with [v'] => fail (seqb v v') (MField k) | _ => [MField k] end
+                   else match filter (fun kv => seqb (fst kv) k) obs with [] => [] | _ => [MAbsent k] end) (ipk_fields (gf i "ipk.fields"))
       ++ fail (nodup_keys [] (map fst obs) []) MDuplicate
   | FApk =>
       req obs "pkgname" (gs i "name")
@@ -180,6 +204,11 @@ Definition check_C02 (f : fmt) (code : list (str * str)) (doc : list (str * list
       ++ opt obs "Packager" (dflt (gs i "rpm.packager") (gs i "maintainer")) ++ opt obs "Group" (gs i "rpm.group")
       ++ req obs "BuildHost" (gs i "rpm.buildhost")
       ++ rel_lines obs "Prefixes" (gl i "rpm.prefixes")
+      (* changelog entries: one per configured entry, in order, titled "<packager> - <version>", dated as configured
+         (an entry without a date is not judged on its time), its text carrying the entry's first note *)
+      ++ fail (strs_eqb (values_of obs "ChangelogName") (gl i "changelog.titles")) (MField (B "changelog-names"))
+      ++ fail (times_ok (values_of obs "ChangelogTime") (gl i "changelog.times")) (MField (B "changelog-times"))
+      ++ fail (notes_ok (values_of obs "ChangelogText") (gl i "changelog.first_notes")) (MField (B "changelog-text"))
       ++ (match one obs "Summary" with
           | Some v => fail (seqb v (dflt (gs i "rpm.summary") (first_line (gs i "description")))) MSynopsis
           | None => [MSynopsis] end)
